@@ -195,6 +195,11 @@ func (fv *funcVerifier) assert(st *State, kind, desc string, pos token.Pos, goal
 		o.Pos = fv.prog.Pos(pos)
 	}
 	fv.obligs = append(fv.obligs, o)
+	if kind == "ensures" && fv.spec != nil && fv.spec.Indep {
+		// "indep": the clause is proved on its own and not assumed for the clauses after it,
+		// so that one violated postcondition cannot make the following ones pass vacuously
+		return o
+	}
 	fv.assume(st, goal)
 	return o
 }
